@@ -99,8 +99,35 @@ func transformOracle(r *run.Runner) {
 
 // ---- generators ----
 
+// altitudes a few ulps (or less than a nanometre) off a multiple of 2^-10 m / a round number: any snapping of the altitude on its
+// way through a conversion shows up as a changed bit pattern
+func altNearGrid(g *Gen) float64 {
+	var base float64
+	switch g.Intn(3) {
+	case 0:
+		base = float64(g.Int63n(1<<23)-(1<<22)) / 1024
+	case 1:
+		base = g.PickF(435, 100, 1000, 12.5, -50, 1, -1, 8848, 0.0009765625, 33554432, -1024, 2, 250.5)
+	default:
+		base = float64(g.Int63n(20001) - 10000)
+	}
+	switch g.Intn(3) {
+	case 0:
+		return Ulp(base, g.Intn(9)-4)
+	case 1:
+		return base + (g.R.Float64()*2-1)*9.5e-10
+	}
+	return Ulp(base, int(g.Pick(-1, 1)))
+}
+func altSubNano(g *Gen) float64 {
+	if g.Chance(0.5) {
+		return g.PickF(1e-10, -1e-10, 5e-324, -5e-324, 3e-10, -3e-10, 9.9e-10, -9.9e-10, 1e-300, 4.9e-10)
+	}
+	return (g.R.Float64()*2 - 1) * 1e-9
+}
+
 func altC18(g *Gen) (float64, string) {
-	switch k := g.Intn(20); {
+	switch k := g.Intn(25); {
 	case k < 7:
 		return 0, "alt=0"
 	case k < 8:
@@ -115,15 +142,28 @@ func altC18(g *Gen) (float64, string) {
 		return (g.R.Float64()*2 - 1) * 33554432, "alt<2^25"
 	case k < 19:
 		return g.PickF(33554432, -33554432, 1e6, -1e6, 3e5, -3e5, 35786000), "alt-special-large"
+	case k < 20:
+		return -g.R.Float64() * 11000, "alt-negative"
+	case k < 23:
+		return altNearGrid(g), "alt-near-2^-10-grid"
 	}
-	return -g.R.Float64() * 11000, "alt-negative"
+	return altSubNano(g), "alt-sub-nanometre"
 }
 
 // a stored (valid) point over the whole domain
 func validPoint(g *Gen) (w.Val, string) {
 	for {
 		alt, tag := altC18(g)
-		if _, v, ok := StoredPoint(g.Lon(), g.Lat(), alt); ok {
+		lon, lat := g.Lon(), g.Lat()
+		switch g.Intn(12) {
+		case 0: // the last centimetres of the projected square, east / west
+			lon = math.Copysign(180-g.R.Float64()*g.PickF(3e-8, 1e-9, 1e-7), g.R.Float64()-0.5)
+			tag += ",lon-at-extent"
+		case 1: // ... north / south: the stored latitudes just below the limit
+			lat = math.Copysign(LatMax-float64(g.Intn(40))*1e-10, g.R.Float64()-0.5)
+			tag += ",lat-at-extent"
+		}
+		if _, v, ok := StoredPoint(lon, lat, alt); ok {
 			return v, tag
 		}
 	}
@@ -217,11 +257,13 @@ func pointList(g *Gen, gen func() (w.Val, string)) (w.List, []string) {
 	seen := map[string]bool{}
 	tags := []string{Tag("npoints=%d", k)}
 	for i := range l {
-		v, t := gen()
+		v, ts := gen()
 		l[i] = v
-		if !seen[t] {
-			seen[t] = true
-			tags = append(tags, t)
+		for _, t := range strings.Split(ts, ",") {
+			if !seen[t] {
+				seen[t] = true
+				tags = append(tags, t)
+			}
 		}
 	}
 	l, t2 := adjacent(g, l)
@@ -290,6 +332,23 @@ func projList(g *Gen, repo *wgs84.Repository, crs int, gen func() (w.Val, string
 			y = g.PickF(2.1e7, -2.1e7, 2.00375083428e7, 1e9)
 			tags = append(tags, "y-beyond-square")
 		}
+		if crs == consts.OrthCrs && g.Chance(0.06) { // inside the square, within 3 mm of its edge
+			if g.Chance(0.5) {
+				x = math.Copysign(20037508.34+g.R.Float64()*0.00278, g.R.Float64()-0.5)
+			} else {
+				y = math.Copysign(20037508.34+g.R.Float64()*0.00278, g.R.Float64()-0.5)
+			}
+			tags = append(tags, "xy-at-extent")
+		}
+		// the ProjectedPoint is built directly (no NewPoint / SetAlt on the way in): its altitude must come back bit for bit
+		switch g.Intn(10) {
+		case 0, 1, 2:
+			alt = altNearGrid(g)
+			tags = append(tags, "proj-alt-near-2^-10-grid")
+		case 3:
+			alt = altSubNano(g)
+			tags = append(tags, "proj-alt-sub-nanometre")
+		}
 		out = append(out, w.L(w.F(x), w.F(y), w.F(alt)))
 	}
 	out, t2 := adjacent(g, out)
@@ -309,6 +368,7 @@ func init() {
 		world := func() (w.Val, string) { return validPoint(g) }
 		if n > 0 {
 			r.Run(run.Case{Prop: "C18", Fn: "EpsgCodes", Args: []w.Val{}, Tags: []string{"epsg-table"}})
+			regressions(r)
 		}
 		for i := 0; i < n; i++ {
 			switch k := g.Intn(20); {
@@ -356,6 +416,34 @@ func init() {
 			}
 		}
 	}
+}
+
+// fixed cases run first on every run: the witnesses of the two repaired defects (an error must be observed now) and inputs of the
+// kind on which earlier seeded changes first showed
+func regressions(r *run.Runner) {
+	pt := func(lon, lat, alt float64) w.Val { return w.L(w.F(lon), w.F(lat), w.F(alt)) }
+	tag := func(s string) []string { return []string{"regression", s} }
+	orth := w.I(int64(consts.OrthCrs))
+	// dbefda0: NewPoint(139, 85.0511287798, 1e6) there and back - the way back must end in an error (it used to return (139,0,0), nil);
+	// still a failed round trip, caused by the height (finding alt_fed_to_datum)
+	r.Run(run.Case{Prop: "C18", Fn: "ProjectRoundTrip", Args: []w.Val{w.L(pt(139, LatMax, 1e6))}, Tags: tag("regression-dbefda0-roundtrip")})
+	// dbefda0: a northing beyond the square must be a conversion error (used to return (0,0,0), nil)
+	r.Run(run.Case{Prop: "C18", Fn: "ConvertProjectedPointListToPointList", Args: []w.Val{w.L(pt(0, 2.1e7, 100)), orth}, Tags: tag("regression-dbefda0-direct")})
+	r.Run(run.Case{Prop: "C18", Fn: "ConvertProjectedPointListToPointList",
+		Args: []w.Val{w.L(pt(1.5473409220265027e+07, 4.1638811440642914e+06, 7), pt(0, 2.1e7, 100), pt(0, 0, 1)), orth}, Tags: tag("regression-dbefda0-prefix")})
+	// e07a6eb: unknown EPSG code with an empty list, both directions - must be an error (used to be nil)
+	r.Run(run.Case{Prop: "C18", Fn: "ConvertPointListToProjectedPointList", Args: []w.Val{w.L(), w.I(99999)}, Tags: tag("regression-e07a6eb-forward")})
+	r.Run(run.Case{Prop: "C18", Fn: "ConvertProjectedPointListToPointList", Args: []w.Val{w.L(), w.I(1)}, Tags: tag("regression-e07a6eb-backward")})
+	// a vertical stack: same horizontal position, different altitudes
+	r.Run(run.Case{Prop: "C18", Fn: "ConvertPointListToProjectedPointList",
+		Args: []w.Val{w.L(pt(139.753098, 35.685371, 0), pt(139.753098, 35.685371, 12.5), pt(139.753098, 35.685371, 0)), orth}, Tags: tag("regression-vertical-stack")})
+	// the corners of the domain: the last millimetres of the projected square
+	r.Run(run.Case{Prop: "C18", Fn: "ProjectRoundTrip",
+		Args: []w.Val{w.L(pt(179.99999999, LatMax, 0), pt(-179.99999999, -LatMax, 0), pt(180, LatMax, 0), pt(-180, -LatMax, 0))}, Tags: tag("regression-extent-corners")})
+	// altitudes next to a multiple of 2^-10 m and below a nanometre, on directly built projected points
+	r.Run(run.Case{Prop: "C18", Fn: "ConvertProjectedPointListToPointList",
+		Args: []w.Val{w.L(pt(1.5473409220265027e+07, 4.1638811440642914e+06, 434.99999999999994), pt(1.5473409220265027e+07, 4.1638811440642914e+06, 1e-10),
+			pt(0, 0, -5e-324), pt(0, 0, 0.0009765625000000002)), orth}, Tags: tag("regression-altitude-bits")})
 }
 
 // ---- certificate step (meta/C18.json "steps"): per-sample CoqInterval proofs that the observed EPSG:3857 coordinates are the
